@@ -32,7 +32,7 @@ ASSUMPTIONS = ["no faults are injected in this check (see C20)",
                "the `lock` field is excluded: _get_instance_state deliberately externalises it as False",
                "every compared instance has a session when GET /save-state is called"]
 FAULT_KINDS = ["preemption", ]
-PROBES = ["step_failed_inside_a_run_steps_request", "unstepped_session_saved_by_save_state", "saves_of_two_instances_overlap", "session_over_two_managers", "two_stepping_requests_in_flight", "numeric_manager_name", "abandoned_stream", "second_save_load_cycle", "live_instance_diverged_from_saved", "save_state_after_eviction", "second_session_in_instance", "loaded_via_timeout", "loaded_via_load_state", "loaded_via_restart", "saved_via_save_state", "compressed_mode",
+PROBES = ["second_server_on_the_same_state_directory", "step_failed_inside_a_run_steps_request", "unstepped_session_saved_by_save_state", "saves_of_two_instances_overlap", "session_over_two_managers", "two_stepping_requests_in_flight", "numeric_manager_name", "abandoned_stream", "second_save_load_cycle", "live_instance_diverged_from_saved", "save_state_after_eviction", "second_session_in_instance", "loaded_via_timeout", "loaded_via_load_state", "loaded_via_restart", "saved_via_save_state", "compressed_mode",
           "step_without_body", "step_with_empty_settings", "nonuniform_settings", "decimal_dt"]
 EXHAUSTIVE = {"quick": False, "thorough": False}
 
@@ -166,6 +166,9 @@ def generate(spec):
         more = [{"op": "step", "settings": copy.deepcopy(fixed) if uniform else rng.choice([{}, _sett(rng, template, "base")])}
                 for _ in range(rng.choice([1, 2]))]
     extra = {"more": more, "load_route2": rng.choice(["timeout", "load_state", "restart"]),
+             # a second server process on the same state directory (two workers behind one balancer): it is asked about an
+             # instance before that instance has ever been saved (and rightly refuses), and again once it has been
+             "peer": rng.random() < 0.15,
              "diverge": rng.choice([None, None, "end", "begin"])}
     # the scenario manager's name is data too: names that look like numbers ("2023") are legal
     mgr_name = rng.choice(["smA", "smA", "smA", "2023", "1"])
@@ -270,6 +273,18 @@ def execute(case):
         w.boot()
         ids = []
         statuses = []
+        peer_box = {}
+
+        def peer_get(path):
+            from BPTK_Py.server import BptkServer
+            from BPTK_Py.externalstateadapter import FileAdapter
+            from worlds.server_world import Resp
+            if "app" not in peer_box:
+                peer_box["app"] = BptkServer("verif_peer", w._factory(), FileAdapter(cfg["adapter"] == "compressed", w.fs.root), w.token)
+                peer_box["app"].logger.disabled = True
+                res.probe("second_server_on_the_same_state_directory")
+            rr = peer_box["app"].test_client().get(path, headers=w.headers(True))
+            return Resp(rr.status_code, rr.get_data(as_text=True))
         if cfg["adapter"] == "compressed":
             res.probe("compressed_mode")
         if cfg["model"]["dt"] in (0.1,):
@@ -286,6 +301,11 @@ def execute(case):
                 if o["op"] == "begin":
                     r = w.post("/%s/begin-session" % iid, {"scenario_managers": list(cfg.get("session_managers") or [MGR]), "scenarios": o["scenarios"],
                                                            "equations": o["equations"], "settings": o["settings"]})
+                    if case.get("peer") and n == 0:
+                        rp_ = peer_get("/%s/session-results" % iid)
+                        log.add("peer_probe", j, rp_.status)
+                        if rp_.status == 200:
+                            res.violate("C19.3-request-failed-with-adapter", {"op": "peer session-results of an instance that was never saved", "status": rp_.status})
                 elif o["op"] == "step":
                     if o["settings"] is None:
                         res.probe("step_without_body")
@@ -364,6 +384,27 @@ def execute(case):
                 if box[j_].status != 200:
                     res.violate("C19.3-request-failed-with-adapter", {"inst": j_, "op": "run-step (two instances in flight together)",
                                                                       "status": box[j_].status, "adapter": cfg["adapter"]})
+        if case.get("peer") and not res.violations:
+            # the peer is asked again: whatever has been saved by now is restored there on demand
+            for j, iid in enumerate(ids):
+                if ("/state/%s.json" % iid) not in w.fs.files:
+                    continue
+                changing = [o_["op"] for o_ in case["instances"][j]["ops"] if o_["op"] != "results"]
+                if not changing or changing[-1] == "begin":
+                    continue        # the live instance has moved on (a session begun, not stepped yet): what is stored is the earlier session
+                a_ = w.get("/%s/session-results" % iid)
+                p_ = peer_get("/%s/session-results" % iid)
+                log.add("peer_read", j, p_.status)
+                if p_.status != 200 or (p_.body if p_.body is not None else p_.text) != (a_.body if a_.body is not None else a_.text):
+                    if not (cfg["adapter"] == "compressed"):
+                        res.violate("C19.1-results-differ-after-restore", {"inst": j, "route": "on demand, on a second server sharing the state directory",
+                                                                           "adapter": cfg["adapter"], "before": str(a_.text)[:200], "after": str(p_.text)[:200],
+                                                                           "status": p_.status})
+                    else:
+                        # (compressed mode: the listed findings apply to what the peer reads as well; only a refusal is judged)
+                        if p_.status != 200:
+                            res.violate("C19.1-results-differ-after-restore", {"inst": j, "route": "on demand, on a second server sharing the state directory",
+                                                                               "adapter": cfg["adapter"], "status": p_.status, "after": str(p_.text)[:200]})
         compared = [0]
 
         def cycle(cno):
